@@ -227,8 +227,10 @@ Section Reach.
 Variables (tp : string) (snaps : list string) (st : store).
 Hypothesis WF : wf_store snaps st.
 
+Lemma meta_ref_meta : forall r, wf_meta_ref r -> startswith "metadata/" (resolve r) = true.
+Proof. intros r H. unfold wf_meta_ref in H. change "metadata/manifests/" with ("metadata/" ++ "manifests/") in H. eapply startswith_trans_app; exact H. Qed.
 Lemma meta_ref_wf : forall r, wf_meta_ref r -> wf_ref r.
-Proof. intros r H. right. exact H. Qed.
+Proof. intros r H. right. apply meta_ref_meta. exact H. Qed.
 Lemma data_ref_wf : forall r, wf_data_ref r -> wf_ref r.
 Proof. intros r H. left. exact H. Qed.
 
@@ -303,9 +305,9 @@ Qed.
 
 (* referenced keys by class, and where they live *)
 Lemma ref_list_meta : forall k, ref_list snaps k -> startswith "metadata/" k = true.
-Proof. intros k [l [H1 [H2 ->]]]. eapply wf_snaps; eauto. Qed.
+Proof. intros k [l [H1 [H2 ->]]]. apply meta_ref_meta. eapply wf_snaps; eauto. Qed.
 Lemma ref_manifest_meta : forall k, ref_manifest snaps st k -> startswith "metadata/" k = true.
-Proof. intros k [l [ms [m [H1 [H2 [[ob [L B]] [H4 [H5 ->]]]]]]]]. eapply wf_lists; eauto. Qed.
+Proof. intros k [l [ms [m [H1 [H2 [[ob [L B]] [H4 [H5 ->]]]]]]]]. apply meta_ref_meta. eapply wf_lists; eauto. Qed.
 Lemma ref_data_data : forall k, ref_data snaps st k -> startswith "data/" k = true.
 Proof. intros k [l [ms [m [es [e [H1 [H2 [H3 [H4 [H5 [[ob [L B]] [H7 ->]]]]]]]]]]]]. eapply wf_manifests; eauto. Qed.
 End Reach.
@@ -435,6 +437,47 @@ Proof.
       * intros mk ob [<-|Hin] TR L M; [|eauto]. right. intros k D. apply I1. apply in_or_app. left. eapply HEAD; eauto.
 Qed.
 
+(* the extra "../x" entry of a corrupted marker listing is never taken for a marker, whatever the table location *)
+Lemma dotdot_suffixes : forall n, endswith INFLIGHT_SUFFIX (basename (lstrip_c "/"%char (py_drop n "../x"))) = false.
+Proof. intro n. do 5 (destruct n as [|n]; [reflexivity|]). reflexivity. Qed.
+
+Lemma norm_dotdot_not_marker : forall tp, endswith INFLIGHT_SUFFIX (basename (normalize_path tp "../x")) = false.
+Proof.
+  intro tp. unfold normalize_path. cbv zeta.
+  change (lstrip_c "/"%char "../x") with "../x".
+  change (startswith "data/" "../x" || startswith "metadata/" "../x") with false. cbv iota.
+  match goal with |- context [if ?c then _ else _] => destruct c end.
+  - apply dotdot_suffixes.
+  - reflexivity.
+Qed.
+
+Lemma markers_loop_removed : forall tp cutoff o ms g prot prot' g',
+  markers_loop tp cutoff o g ms prot = (prot', g') ->
+  (forall mp, In mp ms -> startswith (INFLIGHT_PATH ++ "/") mp = true \/ mp = "../x") ->
+  forall k ob, lookup k (g_store g) = Some ob -> lookup k (g_store g') = None -> startswith (INFLIGHT_PATH ++ "/") k = true.
+Proof.
+  intros tp cutoff o ms. induction ms as [|mp r IH]; intros g prot prot' g' H HM k ob L N.
+  - simpl in H. inversion H; subst. congruence.
+  - simpl in H.
+    assert (HM': forall mp0, In mp0 r -> startswith (INFLIGHT_PATH ++ "/") mp0 = true \/ mp0 = "../x") by (intros; apply HM; right; assumption).
+    destruct (do_stat o g (normalize_path tp mp)) as [st_ g1] eqn:ES. pose proof (do_stat_store _ _ _ _ _ ES) as S1.
+    destruct (negb (endswith INFLIGHT_SUFFIX (basename (normalize_path tp mp)))) eqn:EE.
+    { eapply IH; eauto. rewrite S1. exact L. }
+    apply negb_false_iff in EE.
+    destruct (marker_targets tp o g1 (normalize_path tp mp) (basename (normalize_path tp mp))) as [T g2] eqn:ET.
+    pose proof (marker_targets_store _ _ _ _ _ _ _ ET) as S2.
+    destruct (match st_ with Some t => cutoff <=? t | None => true end).
+    { eapply IH; eauto. rewrite S2, S1. exact L. }
+    destruct (do_delete o g2 (normalize_path tp mp)) as [[u|] g3] eqn:ED.
+    + pose proof (do_delete_some _ _ _ _ _ ED) as S3. rewrite S2, S1 in S3.
+      destruct (string_dec k (normalize_path tp mp)) as [->|NE].
+      * destruct (HM mp (or_introl eq_refl)) as [Hp| ->].
+        -- rewrite norm_table_relative by (apply listed_inflight_relative; exact Hp). exact Hp.
+        -- rewrite norm_dotdot_not_marker in EE. discriminate.
+      * eapply IH; eauto. rewrite S3, lookup_remove_other by exact NE. exact L.
+    + pose proof (do_delete_none _ _ _ _ ED) as S3. eapply IH; eauto. rewrite S3, S2, S1. exact L.
+Qed.
+
 (* ------------------------------------------------------------------ sweep *)
 Lemma sweep_loop_spec : forall tp cutoff keep o ks g dels b dels' g',
   sweep_loop tp cutoff keep o g ks dels = (b, dels', g') ->
@@ -515,13 +558,16 @@ Lemma load_protection_spec : forall tp timeout now o g prot g',
   store_le (g_store g') (g_store g)
   /\ (forall mk ob, lookup mk (g_store g') = Some ob -> is_marker_key mk -> forall k, marker_denotes mk ob k -> In k prot)
   /\ (forall k ob, lookup k (g_store g) = Some ob -> lookup k (g_store g') = None ->
-        mtime ob < now - timeout /\ endswith INFLIGHT_SUFFIX (basename k) = true)
+        mtime ob < now - timeout /\ is_marker_key k)
   /\ (forall k, live_target now timeout (g_store g) k -> In k prot).
 Proof.
   intros tp timeout now o g prot g' H W. unfold load_protection in H.
   destruct (do_listdir o g INFLIGHT_PATH) as [[ms|] g1] eqn:EL; [|discriminate].
   pose proof (do_listdir_store _ _ _ _ _ EL) as S1.
   destruct (markers_loop tp (now - timeout) o g1 ms []) as [p g2] eqn:EM. inversion H; subst p g2. clear H.
+  assert (RM: forall k ob, lookup k (g_store g) = Some ob -> lookup k (g_store g') = None -> startswith (INFLIGHT_PATH ++ "/") k = true).
+  { intros k ob L N. eapply markers_loop_removed; eauto; [|rewrite S1; exact L].
+    intros mp Hmp. destruct (do_listdir_some _ _ _ _ _ EL mp Hmp) as [Hd|Hd]; auto. apply in_list_dir in Hd. tauto. }
   apply markers_loop_spec in EM; [|rewrite S1; exact W]. rewrite S1 in EM. destruct EM as [I1 [I2 [I3 I4]]].
   assert (C: forall mk ob, lookup mk (g_store g') = Some ob -> is_marker_key mk -> forall k, marker_denotes mk ob k -> In k prot).
   { intros mk ob L M k D. pose proof (I2 _ _ L) as L0.
@@ -529,6 +575,7 @@ Proof.
     - eapply do_listdir_nofault_or_bad; eauto. apply in_list_dir. split; [eapply lookup_In_keys; eauto|apply M].
     - apply listed_inflight_relative. apply M. }
   split4; auto.
+  { intros k ob L N. destruct (I4 k ob L N) as [A B]. split; [exact A|]. split; [eapply RM; eauto|exact B]. }
   intros k [mk [ob [L [M [F D]]]]].
   destruct (lookup mk (g_store g')) as [ob'|] eqn:L'.
   - assert (ob' = ob) by (apply I2 in L'; congruence). subst. eapply C; eauto.
@@ -547,7 +594,7 @@ Record gc_safe_spec (now grace timeout : Z) (snaps : list string) (st : store) (
       ~ referenced snaps st k /\ ~ live_target now timeout st k /\ exists ob, lookup k st = Some ob /\ mtime ob < now - grace;
   (* nothing else disappears, except markers older than the abandonment timeout *)
   gs_store : forall k ob, lookup k st = Some ob -> lookup k (g_store (r_final r)) = None ->
-      In k (r_deleted r) \/ (mtime ob < now - timeout /\ endswith INFLIGHT_SUFFIX (basename k) = true);
+      In k (r_deleted r) \/ (mtime ob < now - timeout /\ is_marker_key k);
   gs_store_le : store_le (g_store (r_final r)) st;
   (* a marker that is still there after the run (fresh, or its stat / delete failed) protected everything it denotes *)
   gs_marker_keep : forall mk ob, lookup mk (g_store (r_final r)) = Some ob -> is_marker_key mk ->
@@ -608,7 +655,7 @@ Proof.
   { intros g mk ob k Lg L M D Hk. destruct (KEEPM g mk ob k Lg L M D) as [TR Hin].
     destruct (A2 k Hk) as [[]|[_ [Hm _]]]. apply (NOKEEP k (rd ++ prot)%list); [exact TR|apply in_or_app; auto|exact Hm]. }
   assert (ST1: forall k ob, lookup k st = Some ob -> lookup k (g_store g4) = None ->
-      In k d1 \/ (mtime ob < now - timeout /\ endswith INFLIGHT_SUFFIX (basename k) = true)).
+      In k d1 \/ (mtime ob < now - timeout /\ is_marker_key k)).
   { intros k ob L N. destruct (lookup k (g_store g3)) as [ob3|] eqn:L3.
     - assert (ob3 = ob) by (apply P1 in L3; congruence). subst. left. eapply A3; eauto.
     - right. eapply P3; eauto. }
@@ -647,6 +694,12 @@ Proof.
       + destruct (KEEPM g5 mk ob k L5 L M D) as [TR Hin]. apply (NOKEEP k ((rm ++ rl) ++ prot)%list); [exact TR|apply in_or_app; auto|exact Hm]. }
   destruct b2; exact FIN.
 Qed.
+
+Theorem gc_safe_nofault : forall (tp : string) (grace now timeout : Z) (snaps : list string) (st : store),
+  wf_store snaps st ->
+  forall k, In k (r_deleted (gc_run tp grace now timeout no_faults snaps st)) ->
+    ~ referenced snaps st k /\ ~ live_target now timeout st k /\ exists ob, lookup k st = Some ob /\ mtime ob < now - grace.
+Proof. intros tp grace now timeout snaps st W. exact (gs_deleted _ _ _ _ _ _ (gc_safe_all_faults tp grace now timeout no_faults snaps st W)). Qed.
 
 (* ------------------------------------------------------------------ decidable well-formedness *)
 Lemma nodupb_sound : forall l, nodupb l = true -> NoDup l.
